@@ -23,7 +23,12 @@ theorem hasPrefix_iff_strip (s p : Bytes) : hasPrefix s p = (stripPrefix s p).is
 
 /-! ### sizes, descendants -/
 
-theorem mem_nodesK_size : ∀ (n : Nat) (l : List Tree), sizeK l ≤ n → ∀ d, d ∈ nodesK l → d.size ≤ sizeK l := by
+variable {α : Type}
+
+theorem Tree.size_eq (t : Tree α) : t.size = sizeK t.kids + 1 := by
+  cases t; simp [Tree.size, Tree.kids]
+
+theorem mem_nodesK_size : ∀ (n : Nat) (l : List (Tree α)), sizeK l ≤ n → ∀ d, d ∈ nodesK l → d.size ≤ sizeK l := by
   intro n
   induction n with
   | zero =>
@@ -37,7 +42,7 @@ theorem mem_nodesK_size : ∀ (n : Nat) (l : List Tree), sizeK l ≤ n → ∀ d
     | nil => simp [nodesK] at hd
     | cons k r =>
       cases k with
-      | node fn ks =>
+      | node inc fn body ks =>
         simp only [sizeK, Tree.size] at hl ⊢
         simp only [nodesK, Tree.descs, List.mem_cons, List.mem_append] at hd
         rcases hd with rfl | hd | hd
@@ -45,29 +50,29 @@ theorem mem_nodesK_size : ∀ (n : Nat) (l : List Tree), sizeK l ≤ n → ∀ d
         · have := ih ks (by omega) d hd; omega
         · have := ih r (by omega) d hd; omega
 
-theorem mem_nodesK_cons_self (k : Tree) (r : List Tree) : k ∈ nodesK (k :: r) := by
+theorem mem_nodesK_cons_self (k : Tree α) (r : List (Tree α)) : k ∈ nodesK (k :: r) := by
   simp [nodesK]
 
-theorem mem_nodesK_of_kids (fn : Bytes) (ks r : List Tree) (d : Tree) (h : d ∈ nodesK ks) :
-    d ∈ nodesK (.node fn ks :: r) := by
+theorem mem_nodesK_of_kids (inc : α) (fn : Bytes) (body : α) (ks r : List (Tree α)) (d : Tree α) (h : d ∈ nodesK ks) :
+    d ∈ nodesK (.node inc fn body ks :: r) := by
   simp [nodesK, Tree.descs, h]
 
-theorem mem_nodesK_of_tail (k : Tree) (r : List Tree) (d : Tree) (h : d ∈ nodesK r) : d ∈ nodesK (k :: r) := by
+theorem mem_nodesK_of_tail (k : Tree α) (r : List (Tree α)) (d : Tree α) (h : d ∈ nodesK r) : d ∈ nodesK (k :: r) := by
   simp [nodesK, h]
 
 /-! ### heaps -/
 
-def Heap.le (h h' : Heap) : Prop := ∀ k v, h k = some v → h' k = some v
+def Heap.le (h h' : Heap α) : Prop := ∀ k v, h k = some v → h' k = some v
 
-theorem Heap.le_refl (h : Heap) : h.le h := fun _ _ x => x
-theorem Heap.le_trans {a b c : Heap} (h1 : a.le b) (h2 : b.le c) : a.le c := fun k v x => h2 k v (h1 k v x)
-theorem Heap.le_ins (h : Heap) (k : Bytes) (v : Tree) (hk : h k = none) : h.le (h.ins k v) := by
+theorem Heap.le_refl (h : Heap α) : h.le h := fun _ _ x => x
+theorem Heap.le_trans {a b c : Heap α} (h1 : a.le b) (h2 : b.le c) : a.le c := fun k v x => h2 k v (h1 k v x)
+theorem Heap.le_ins (h : Heap α) (k : Bytes) (v : Tree α) (hk : h k = none) : h.le (h.ins k v) := by
   intro k' v' hv
   by_cases e : k' = k
   · subst e; rw [hk] at hv; cases hv
   · simp [Heap.ins, e, hv]
 
-theorem Heap.ins_comm (k k' : Bytes) (v v' : Tree) (h : Heap) (hne : k ≠ k') :
+theorem Heap.ins_comm (k k' : Bytes) (v v' : Tree α) (h : Heap α) (hne : k ≠ k') :
     (h.ins k v).ins k' v' = (h.ins k' v').ins k v := by
   funext x
   simp only [Heap.ins]
@@ -78,16 +83,16 @@ theorem Heap.ins_comm (k k' : Bytes) (v v' : Tree) (h : Heap) (hne : k ≠ k') :
 
 /-! ### decompress is monotone in the heap and in the fuel -/
 
-theorem decListWith_mono (dk dk' : List Tree → DRes (List Tree)) (m m' : Heap) (hm : m.le m')
+theorem decListWith_mono (dk dk' : List (Tree α) → DRes (List (Tree α))) (m m' : Heap α) (hm : m.le m')
     (hdk : ∀ x y, dk x = .ok y → dk' x = .ok y) :
-    ∀ (l r : List Tree), decListWith dk m l = .ok r → decListWith dk' m' l = .ok r := by
+    ∀ (l r : List (Tree α)), decListWith dk m l = .ok r → decListWith dk' m' l = .ok r := by
   intro l
   induction l with
   | nil => intro r h; simpa [decListWith] using h
   | cons k t ih =>
     intro r h
     cases k with
-    | node fn ks =>
+    | node inc fn body ks =>
       simp only [decListWith] at h ⊢
       cases hs : stripPrefix fn refPrefix with
       | some fn' =>
@@ -96,7 +101,7 @@ theorem decListWith_mono (dk dk' : List Tree → DRes (List Tree)) (m m' : Heap)
         | none => simp [hl] at h
         | some c =>
           cases c with
-          | node g gks =>
+          | node ginc g gbody gks =>
             simp only [hl] at h
             rw [hm fn' _ hl]
             simp only
@@ -131,14 +136,14 @@ theorem decListWith_mono (dk dk' : List Tree → DRes (List Tree)) (m m' : Heap)
         | panic => simp [hd] at h
         | fuel => simp [hd] at h
 
-theorem decompressKids_succ (f : Nat) (m : Heap) (l : List Tree) :
+theorem decompressKids_succ (f : Nat) (m : Heap α) (l : List (Tree α)) :
     decompressKids (f + 1) m l = decListWith (decompressKids f m) m l := by
   cases l with
   | nil => simp [decompressKids, decListWith]
   | cons k r => simp [decompressKids]
 
-theorem decompressKids_mono : ∀ (f f' : Nat) (m m' : Heap), f ≤ f' → m.le m' →
-    ∀ (l r : List Tree), decompressKids f m l = .ok r → decompressKids f' m' l = .ok r := by
+theorem decompressKids_mono : ∀ (f f' : Nat) (m m' : Heap α), f ≤ f' → m.le m' →
+    ∀ (l r : List (Tree α)), decompressKids f m l = .ok r → decompressKids f' m' l = .ok r := by
   intro f
   induction f with
   | zero =>
@@ -157,61 +162,67 @@ theorem decompressKids_mono : ∀ (f f' : Nat) (m m' : Heap), f ≤ f' → m.le 
 /-! ### the invariant of compressThriftInclude -/
 
 /-- a heap entry `c` for file `k` decompresses (under `H`) to the original `o` -/
-def GoodEntry (U : Tree → Prop) (H : Heap) (k : Bytes) : Prop :=
-  ∃ c o, H k = some c ∧ U o ∧ o.fn = k ∧ c.fn = k ∧
+def GoodEntry (U : Tree α → Prop) (H : Heap α) (k : Bytes) : Prop :=
+  ∃ c o, H k = some c ∧ U o ∧ o.fn = k ∧ c.fn = k ∧ c.body = o.body ∧
     ∀ f, depthK o.kids ≤ f → decompressKids f H c.kids = .ok o.kids
 
-structure Inv (U : Tree → Prop) (P : List Bytes) (s : CState) : Prop where
+structure Inv (U : Tree α → Prop) (P : List Bytes) (s : CState α) : Prop where
   keys : ∀ k, s.heap k ≠ none → k ∈ s.vis
   prog : ∀ k, k ∈ P → s.heap k = none
   good : ∀ k, k ∈ s.vis → k ∈ P ∨ GoodEntry U s.heap k
 
-theorem GoodEntry.mono {U : Tree → Prop} {H H' : Heap} {k : Bytes} (hle : H.le H') (h : GoodEntry U H k) :
+theorem GoodEntry.mono {U : Tree α → Prop} {H H' : Heap α} {k : Bytes} (hle : H.le H') (h : GoodEntry U H k) :
     GoodEntry U H' k := by
-  obtain ⟨c, o, h1, h2, h3, h4, h5⟩ := h
-  exact ⟨c, o, hle _ _ h1, h2, h3, h4, fun f hf => decompressKids_mono f f H H' (Nat.le_refl _) hle _ _ (h5 f hf)⟩
+  obtain ⟨c, o, h1, h2, h3, h4, h4', h5⟩ := h
+  exact ⟨c, o, hle _ _ h1, h2, h3, h4, h4', fun f hf => decompressKids_mono f f H H' (Nat.le_refl _) hle _ _ (h5 f hf)⟩
 
-theorem compressKids_nil (s : CState) : compressKids [] s = ([], s) := by simp only [compressKids]
+theorem compressKids_nil (dflt : α) (s : CState α) : compressKids dflt [] s = ([], s) := by simp only [compressKids]
 
-theorem compressKids_visited (fn : Bytes) (ks r : List Tree) (s : CState) (h : s.vis.contains fn = true) :
-    compressKids (.node fn ks :: r) s =
-      (.node (refPrefix ++ fn) [] :: (compressKids r s).1, (compressKids r s).2) := by
-  simp only [compressKids, compressNode, Tree.fn, h, if_true]
+theorem compressKids_visited (dflt inc : α) (fn : Bytes) (body : α) (ks r : List (Tree α)) (s : CState α)
+    (h : s.vis.contains fn = true) :
+    compressKids dflt (.node inc fn body ks :: r) s =
+      (.node inc (refPrefix ++ fn) dflt [] :: (compressKids dflt r s).1, (compressKids dflt r s).2) := by
+  simp only [compressKids, compressNode, Tree.fn, Tree.inc, h, if_true]
 
-theorem compressKids_fresh (fn : Bytes) (ks r : List Tree) (s : CState) (h : s.vis.contains fn = false) :
-    compressKids (.node fn ks :: r) s =
-      (.node fn (compressKids ks { s with vis := fn :: s.vis }).1 ::
-        (compressKids r { vis := (compressKids ks { s with vis := fn :: s.vis }).2.vis,
-                          heap := (compressKids ks { s with vis := fn :: s.vis }).2.heap.ins fn
-                            (.node fn (compressKids ks { s with vis := fn :: s.vis }).1) }).1,
-       (compressKids r { vis := (compressKids ks { s with vis := fn :: s.vis }).2.vis,
-                          heap := (compressKids ks { s with vis := fn :: s.vis }).2.heap.ins fn
-                            (.node fn (compressKids ks { s with vis := fn :: s.vis }).1) }).2) := by
-  simp only [compressKids, compressNode, Tree.fn, h, Bool.false_eq_true, if_false]
+/-- state after marking `fn` visited -/
+def CState.mark (s : CState α) (fn : Bytes) : CState α := ⟨fn :: s.vis, s.heap⟩
+/-- state after the recursive call on `fn` returned: the pointee is final -/
+def CState.fin (s1 : CState α) (fn : Bytes) (c : Tree α) : CState α := ⟨s1.vis, Heap.ins fn c s1.heap⟩
 
-theorem collectKids_nil (m : Heap) : collectKids [] m = m := by simp only [collectKids]
+theorem compressKids_fresh (dflt inc : α) (fn : Bytes) (body : α) (ks r : List (Tree α)) (s : CState α)
+    (h : s.vis.contains fn = false) :
+    compressKids dflt (.node inc fn body ks :: r) s =
+      (.node inc fn body (compressKids dflt ks (s.mark fn)).1 ::
+        (compressKids dflt r ((compressKids dflt ks (s.mark fn)).2.fin fn
+          (.node inc fn body (compressKids dflt ks (s.mark fn)).1))).1,
+       (compressKids dflt r ((compressKids dflt ks (s.mark fn)).2.fin fn
+          (.node inc fn body (compressKids dflt ks (s.mark fn)).1))).2) := by
+  simp only [compressKids, compressNode, Tree.fn, Tree.inc, Tree.body, h, Bool.false_eq_true, if_false,
+    CState.mark, CState.fin]
 
-theorem collectKids_cons (fn : Bytes) (ks r : List Tree) (m : Heap) :
-    collectKids (.node fn ks :: r) m =
+theorem collectKids_nil (m : Heap α) : collectKids ([] : List (Tree α)) m = m := by simp only [collectKids]
+
+theorem collectKids_cons (inc : α) (fn : Bytes) (body : α) (ks r : List (Tree α)) (m : Heap α) :
+    collectKids (.node inc fn body ks :: r) m =
       if hasPrefix fn refPrefix then collectKids r m
-      else collectKids r (collectKids ks (m.ins fn (.node fn ks))) := by
+      else collectKids r (collectKids ks (m.ins fn (.node inc fn body ks))) := by
   simp only [collectKids, collectNode, Tree.fn]
   rfl
 
-theorem depthK_cons (fn : Bytes) (ks r : List Tree) :
-    depthK (.node fn ks :: r) = max (depthK ks + 1) (depthK r) := by
+theorem depthK_cons (inc : α) (fn : Bytes) (body : α) (ks r : List (Tree α)) :
+    depthK (.node inc fn body ks :: r) = max (depthK ks + 1) (depthK r) := by
   simp [depthK, Tree.depth]
 
 /-- **main invariant**: compressing a list of includes keeps the invariant, only extends the heap, and
 its output decompresses (under the resulting heap, hence under every later one) to the input. -/
-theorem compressKids_inv (U : Tree → Prop)
-    (hU : ∀ a b, U a → U b → a.fn = b.fn → a = b)
+theorem compressKids_inv (dflt : α) (U : Tree α → Prop)
+    (hU : ∀ a b, U a → U b → a.fn = b.fn → a.body = b.body ∧ a.kids = b.kids)
     (hN : ∀ a, U a → stripPrefix a.fn refPrefix = none) :
-    ∀ (n : Nat) (l : List Tree), sizeK l ≤ n → ∀ (P : List Bytes) (s : CState), Inv U P s →
+    ∀ (n : Nat) (l : List (Tree α)), sizeK l ≤ n → ∀ (P : List Bytes) (s : CState α), Inv U P s →
       (∀ d, d ∈ nodesK l → U d ∧ d.fn ∉ P) →
-      Inv U P (compressKids l s).2 ∧ s.heap.le (compressKids l s).2.heap ∧
-      (∀ k, k ∈ s.vis → k ∈ (compressKids l s).2.vis) ∧
-      (∀ f, depthK l ≤ f → decompressKids f (compressKids l s).2.heap (compressKids l s).1 = .ok l) := by
+      Inv U P (compressKids dflt l s).2 ∧ s.heap.le (compressKids dflt l s).2.heap ∧
+      (∀ k, k ∈ s.vis → k ∈ (compressKids dflt l s).2.vis) ∧
+      (∀ f, depthK l ≤ f → decompressKids f (compressKids dflt l s).2.heap (compressKids dflt l s).1 = .ok l) := by
   intro n
   induction n with
   | zero =>
@@ -229,16 +240,16 @@ theorem compressKids_inv (U : Tree → Prop)
       exact ⟨hI, Heap.le_refl _, fun _ h => h, fun f _ => by cases f <;> simp [decompressKids]⟩
     | cons k r =>
       cases k with
-      | node fn ks =>
+      | node inc fn body ks =>
         have hsz : sizeK ks ≤ n ∧ sizeK r ≤ n := by simp only [sizeK, Tree.size] at hl; omega
-        have hself := hl' _ (mem_nodesK_cons_self (.node fn ks) r)
-        have hUself : U (.node fn ks) := hself.1
+        have hself := hl' _ (mem_nodesK_cons_self (.node inc fn body ks) r)
+        have hUself : U (.node inc fn body ks) := hself.1
         have hfnP : fn ∉ P := hself.2
         have hr' : ∀ d, d ∈ nodesK r → U d ∧ d.fn ∉ P := fun d hd => hl' d (mem_nodesK_of_tail _ r d hd)
         by_cases hv : s.vis.contains fn = true
         · -- visited: a reference stub
           obtain ⟨i1, i2, i3, i4⟩ := ih r hsz.2 P s hI hr'
-          rw [compressKids_visited fn ks r s hv]
+          rw [compressKids_visited dflt inc fn body ks r s hv]
           refine ⟨i1, i2, i3, ?_⟩
           intro f hf
           rw [depthK_cons] at hf
@@ -246,15 +257,17 @@ theorem compressKids_inv (U : Tree → Prop)
           | zero => omega
           | succ f =>
             have hmem : fn ∈ s.vis := by simpa using hv
-            rcases hI.good fn hmem with hp | ⟨c, o, g1, g2, g3, g4, g5⟩
+            rcases hI.good fn hmem with hp | ⟨c, o, g1, g2, g3, g4, g4', g5⟩
             · exact absurd hp hfnP
-            · have ho : o = .node fn ks := hU _ _ g2 hUself (by simpa [Tree.fn] using g3)
-              subst ho
+            · obtain ⟨hob, hok⟩ := hU _ _ g2 hUself (by simpa [Tree.fn] using g3)
+              simp only [Tree.body, Tree.kids] at hob hok
               cases c with
-              | node g gks =>
+              | node cinc g gbody gks =>
                 simp only [Tree.fn] at g4
                 subst g4
-                simp only [Tree.kids] at g5
+                simp only [Tree.kids, hok] at g5
+                simp only [Tree.body, hob] at g4'
+                subst g4'
                 have e1 := decompressKids_mono _ f _ _ (by omega) i2 _ _ (g5 (depthK ks) (Nat.le_refl _))
                 have e2 := i4 (f + 1) (by omega)
                 rw [decompressKids_succ] at e2 ⊢
@@ -267,7 +280,7 @@ theorem compressKids_inv (U : Tree → Prop)
             | none => rfl
             | some v => exact absurd (hI.keys fn (by simp [h])) hnv
           -- state for the recursive call
-          let sa : CState := { s with vis := fn :: s.vis }
+          let sa : CState α := { s with vis := fn :: s.vis }
           have hIa : Inv U (fn :: P) sa := {
             keys := fun k hk => List.mem_cons_of_mem _ (hI.keys k hk)
             prog := fun k hk => by
@@ -282,21 +295,21 @@ theorem compressKids_inv (U : Tree → Prop)
                 · exact Or.inr h }
           have hks' : ∀ d, d ∈ nodesK ks → U d ∧ d.fn ∉ fn :: P := by
             intro d hd
-            have hd' := hl' d (mem_nodesK_of_kids fn ks r d hd)
+            have hd' := hl' d (mem_nodesK_of_kids inc fn body ks r d hd)
             refine ⟨hd'.1, ?_⟩
             intro hmem
             rcases List.mem_cons.mp hmem with h | h
-            · have : d = .node fn ks := hU _ _ hd'.1 hUself (by simpa [Tree.fn] using h)
+            · have hk : d.kids = ks := by
+                simpa [Tree.kids] using (hU _ _ hd'.1 hUself (by simpa [Tree.fn] using h)).2
               have hsize := mem_nodesK_size (sizeK ks) ks (Nat.le_refl _) d hd
-              rw [this] at hsize
-              simp only [Tree.size] at hsize
+              rw [Tree.size_eq, hk] at hsize
               omega
             · exact hd'.2 h
           obtain ⟨a1, a2, a3, a4⟩ := ih ks hsz.1 (fn :: P) sa hIa hks'
           -- after recording the pointee
-          let s1 := (compressKids ks sa).2
-          let ks' := (compressKids ks sa).1
-          let s2 : CState := { vis := s1.vis, heap := s1.heap.ins fn (.node fn ks') }
+          let s1 := (compressKids dflt ks sa).2
+          let ks' := (compressKids dflt ks sa).1
+          let s2 : CState α := { vis := s1.vis, heap := s1.heap.ins fn (.node inc fn body ks') }
           have hH1fn : s1.heap fn = none := a1.prog fn (List.mem_cons_self ..)
           have hle12 : s1.heap.le s2.heap := Heap.le_ins _ _ _ hH1fn
           have hI2 : Inv U P s2 := {
@@ -307,13 +320,13 @@ theorem compressKids_inv (U : Tree → Prop)
             prog := fun k hk => by
               have e : k ≠ fn := fun e => hfnP (e ▸ hk)
               have := a1.prog k (List.mem_cons_of_mem _ hk)
-              show Heap.ins fn (Tree.node fn ks') s1.heap k = none
+              show Heap.ins fn (Tree.node inc fn body ks') s1.heap k = none
               simp only [Heap.ins, e, if_false]
               exact this
             good := fun k hk => by
               by_cases e : k = fn
               · subst e
-                refine Or.inr ⟨.node k ks', .node k ks, by simp [s2, Heap.ins], hUself, rfl, rfl, ?_⟩
+                refine Or.inr ⟨.node inc k body ks', .node inc k body ks, by simp [s2, Heap.ins], hUself, rfl, rfl, rfl, ?_⟩
                 intro f hf
                 exact decompressKids_mono f f _ _ (Nat.le_refl _) hle12 _ _ (a4 f hf)
               · rcases a1.good k hk with h | h
@@ -322,8 +335,9 @@ theorem compressKids_inv (U : Tree → Prop)
                   · exact Or.inl h
                 · exact Or.inr (h.mono hle12) }
           obtain ⟨b1, b2, b3, b4⟩ := ih r hsz.2 P s2 hI2 hr'
-          have hc : compressKids (.node fn ks :: r) s =
-              (.node fn ks' :: (compressKids r s2).1, (compressKids r s2).2) := compressKids_fresh fn ks r s hv'
+          have hc : compressKids dflt (.node inc fn body ks :: r) s =
+              (.node inc fn body ks' :: (compressKids dflt r s2).1, (compressKids dflt r s2).2) :=
+            compressKids_fresh dflt inc fn body ks r s hv'
           rw [hc]
           refine ⟨b1, Heap.le_trans a2 (Heap.le_trans hle12 b2), ?_, ?_⟩
           · intro k hk
@@ -333,7 +347,7 @@ theorem compressKids_inv (U : Tree → Prop)
             cases f with
             | zero => omega
             | succ f =>
-              have e1 : decompressKids f (compressKids r s2).2.heap ks' = .ok ks :=
+              have e1 : decompressKids f (compressKids dflt r s2).2.heap ks' = .ok ks :=
                 decompressKids_mono _ f _ _ (Nat.le_refl _) (Heap.le_trans hle12 b2) _ _ (a4 f (by omega))
               have e2 := b4 (f + 1) (by omega)
               rw [decompressKids_succ] at e2 ⊢
@@ -341,8 +355,8 @@ theorem compressKids_inv (U : Tree → Prop)
               simp only [decListWith, hs, e1, e2]
 
 /-- the key set only grows -/
-theorem compressKids_vis : ∀ (n : Nat) (l : List Tree), sizeK l ≤ n → ∀ (s : CState) k, k ∈ s.vis →
-    k ∈ (compressKids l s).2.vis := by
+theorem compressKids_vis (dflt : α) : ∀ (n : Nat) (l : List (Tree α)), sizeK l ≤ n → ∀ (s : CState α) k, k ∈ s.vis →
+    k ∈ (compressKids dflt l s).2.vis := by
   intro n
   induction n with
   | zero =>
@@ -356,24 +370,24 @@ theorem compressKids_vis : ∀ (n : Nat) (l : List Tree), sizeK l ≤ n → ∀ 
     | nil => simpa [compressKids_nil] using hk
     | cons t r =>
       cases t with
-      | node fn ks =>
+      | node inc fn body ks =>
         have hsz : sizeK ks ≤ n ∧ sizeK r ≤ n := by simp only [sizeK, Tree.size] at hl; omega
         by_cases hv : s.vis.contains fn = true
-        · rw [compressKids_visited fn ks r s hv]
+        · rw [compressKids_visited dflt inc fn body ks r s hv]
           exact ih r hsz.2 s k hk
         · have hv' : s.vis.contains fn = false := by simpa using hv
-          rw [compressKids_fresh fn ks r s hv']
+          rw [compressKids_fresh dflt inc fn body ks r s hv']
           apply ih r hsz.2
           apply ih ks hsz.1
           exact List.mem_cons_of_mem _ hk
 
 /-- **collect on the plugin side rebuilds the compressor's pointees**: whatever commutes with the
 insertions of not-yet-visited files can be pushed through. -/
-theorem collect_compress :
-    ∀ (n : Nat) (l : List Tree), sizeK l ≤ n → (∀ d, d ∈ nodesK l → stripPrefix d.fn refPrefix = none) →
-    ∀ (s : CState) (g : Heap → Heap),
+theorem collect_compress (dflt : α) :
+    ∀ (n : Nat) (l : List (Tree α)), sizeK l ≤ n → (∀ d, d ∈ nodesK l → stripPrefix d.fn refPrefix = none) →
+    ∀ (s : CState α) (g : Heap α → Heap α),
       (∀ k v H, k ∉ s.vis → g (Heap.ins k v H) = Heap.ins k v (g H)) →
-      collectKids (compressKids l s).1 (g s.heap) = g (compressKids l s).2.heap := by
+      collectKids (compressKids dflt l s).1 (g s.heap) = g (compressKids dflt l s).2.heap := by
   intro n
   induction n with
   | zero =>
@@ -387,14 +401,14 @@ theorem collect_compress :
     | nil => simp [compressKids_nil, collectKids_nil]
     | cons t r =>
       cases t with
-      | node fn ks =>
+      | node inc fn body ks =>
         have hsz : sizeK ks ≤ n ∧ sizeK r ≤ n := by simp only [sizeK, Tree.size] at hl; omega
         have hr : ∀ d, d ∈ nodesK r → stripPrefix d.fn refPrefix = none :=
           fun d hd => hno d (mem_nodesK_of_tail _ r d hd)
         have hk : ∀ d, d ∈ nodesK ks → stripPrefix d.fn refPrefix = none :=
-          fun d hd => hno d (mem_nodesK_of_kids fn ks r d hd)
+          fun d hd => hno d (mem_nodesK_of_kids inc fn body ks r d hd)
         by_cases hv : s.vis.contains fn = true
-        · rw [compressKids_visited fn ks r s hv]
+        · rw [compressKids_visited dflt inc fn body ks r s hv]
           have hp : hasPrefix (refPrefix ++ fn) refPrefix = true := by
             rw [hasPrefix_iff_strip, stripPrefix_append]; rfl
           rw [collectKids_cons]
@@ -402,27 +416,24 @@ theorem collect_compress :
           exact ih r hsz.2 hr s g hg
         · have hv' : s.vis.contains fn = false := by simpa using hv
           have hnv : fn ∉ s.vis := by simpa using hv'
-          rw [compressKids_fresh fn ks r s hv']
+          rw [compressKids_fresh dflt inc fn body ks r s hv']
           have hs : stripPrefix fn refPrefix = none := by
-            simpa [Tree.fn] using hno _ (mem_nodesK_cons_self (.node fn ks) r)
+            simpa [Tree.fn] using hno _ (mem_nodesK_cons_self (.node inc fn body ks) r)
           have hp : hasPrefix fn refPrefix = false := by rw [hasPrefix_iff_strip, hs]; rfl
           rw [collectKids_cons]
           simp only [hp, Bool.false_eq_true, if_false]
           -- push the insertion of `fn` through the recursive call
-          let sa : CState := { s with vis := fn :: s.vis }
-          let c := Tree.node fn (compressKids ks sa).1
-          have e1 := ih ks hsz.1 hk sa (fun H => Heap.ins fn c (g H)) (by
+          have e1 := ih ks hsz.1 hk (s.mark fn)
+            (fun H => Heap.ins fn (Tree.node inc fn body (compressKids dflt ks (s.mark fn)).1) (g H)) (by
             intro k v H hk'
             have hkv : k ∉ s.vis := fun h => hk' (List.mem_cons_of_mem _ h)
             have hne : k ≠ fn := fun e => hk' (e ▸ List.mem_cons_self ..)
-            show Heap.ins fn c (g (Heap.ins k v H)) = Heap.ins k v (Heap.ins fn c (g H))
-            rw [hg k v H hkv, Heap.ins_comm k fn v c (g H) hne])
-          have e1' : collectKids (compressKids ks sa).1 (Heap.ins fn c (g s.heap)) =
-              Heap.ins fn c (g (compressKids ks sa).2.heap) := e1
-          rw [e1', ← hg fn c _ hnv]
-          let s2 : CState := { vis := (compressKids ks sa).2.vis, heap := (compressKids ks sa).2.heap.ins fn c }
-          exact ih r hsz.2 hr s2 g (fun k v H hk' => hg k v H (fun h => hk'
-            (compressKids_vis _ ks (Nat.le_refl _) sa k (List.mem_cons_of_mem _ h))))
+            show Heap.ins fn _ (g (Heap.ins k v H)) = Heap.ins k v (Heap.ins fn _ (g H))
+            rw [hg k v H hkv, Heap.ins_comm k fn v _ (g H) hne])
+          simp only [CState.mark] at e1 ⊢
+          rw [e1, ← hg fn _ _ hnv]
+          exact ih r hsz.2 hr _ g (fun k v H hk' => hg k v H (fun h => hk'
+            (compressKids_vis dflt _ ks (Nat.le_refl _) ⟨fn :: s.vis, s.heap⟩ k (List.mem_cons_of_mem _ h))))
 
 /-! ### data trailer -/
 
